@@ -44,6 +44,10 @@ TRUSTED_BASE = [
     'hashlib.sha1 (model: parameter; driver: Lean SHA-1 validated by the cookie streams), os.urandom, getpass, os.stat, open: explicit inputs',
     'Twisted: an exception escaping dataReceived loses the connection (canonicalised as close)',
     'Auth/SpecServerRef.lean: the reference server is a transcription of the DBus specification server states',
+    "Auth/Handshake2.lean (own-bus-handshake): `envOf` - how the client's cookie environment is derived from the bus's world "
+    '(os.stat of a keyring directory the bus created: 0o40700, chowned to the user when the bus is root; the cookie file as '
+    '`_create_cookie` writes it; os.urandom as one shared counted source) is mirrored by hand and validated by the stream; '
+    "the bus model itself (Auth/Server*.lean, Mechs.lean) is C06's",
 ]
 ASSUMPTIONS = [
     'any exception escaping dataReceived (e.g. UnicodeDecodeError for a command word that is not UTF-8) makes Twisted '
@@ -57,6 +61,9 @@ ASSUMPTIONS = [
     'demanded (reference servers send 32 digits)',
     'the oracle is silent where the statement is: a last line before closing, skipped mechanisms (order-preserving '
     'selection without repetition), loseConnection called more than once are accepted',
+    'own-bus-handshake: client and bus run on one machine (one passwd, one file system, one os.urandom); the bus GUID is 32 hex '
+    'digits; every line fits 16384 bytes (hypotheses `Hyp` of the composition theorems); a fall-back to a LATER mechanism than '
+    'the environment allows is a violation, an earlier one only a model/implementation disagreement',
 ]
 RULE = ('a case = (transport kind, keyring environment, list of reads); distinct = distinct canonical JSON; '
         'non-trivial = at least one server line reaches handleAuthMessage')
@@ -466,8 +473,8 @@ def monitor(world, unix, evs, early_binary, pref=None):
             cmd, args = split_cmd(line)
             if cmd == b'OK' and valid_guid(args):
                 ok_seen = ok_ever = True
-            elif cmd == b'OK':
-                bad_ok = line
+            elif cmd == b'OK' and args.strip():
+                bad_ok = line             # an argument is there, but it is not a GUID (no argument at all: begin-without-ok)
             pending_fd = unix and neg_after_ok and not fd_answer
             if cmd in (b'AGREE_UNIX_FD', b'ERROR') and neg_after_ok:
                 fd_answer = True
